@@ -619,6 +619,13 @@ pub fn class_value(v: &Value) -> vibesql_types::SqlValue {
         ("str", "nullword") => V::Varchar("NULL".into()),
         ("str", "sqlish") => V::Varchar("'); DROP TABLE TV; --".into()),
         ("str", "spaces") => V::Varchar("  lead and trail  ".into()),
+        ("str", "long600") => V::Varchar("0123456789abcdefghij".repeat(30)),
+        ("chr", "uni") => V::Character("h\u{e9}\u{4e16}".into()),
+        ("chr", "long280") => V::Character("abcdefg".repeat(40)),
+        ("chr", _) => V::Character(x.to_string()),
+        ("numeric", _) => V::Numeric(x.parse().unwrap_or(0.0)),
+        ("real", _) => V::Real(x.parse().unwrap_or(0.0)),
+        ("float", _) => V::Float(x.parse().unwrap_or(0.0)),
         ("str", _) => V::Varchar(x.to_string()),
         ("date", _) => x.parse::<vibesql_types::Date>().map(V::Date).unwrap_or(V::Null),
         ("time", _) => x.parse::<vibesql_types::Time>().map(V::Time).unwrap_or(V::Null),
